@@ -35,7 +35,9 @@ namespace Utv.C17
 
 /-- every declaration a use can reach exists (`S`: the reachable set, closed under mention) -/
 def Reaches (defs : List (Name × Decl)) (S : List Name) : Prop :=
-  ∀ k ∈ S, ∃ d, lookupD k defs = some d ∧ ∀ n ∈ d.allNames, n ∈ S
+  ∀ k ∈ S, ∃ d, lookupD k defs = some d ∧ (∀ n ∈ d.allNames, n ∈ S) ∧
+    -- a base class is reached too; `Modelled`: the model follows one level of inheritance
+    (∀ b, d.base = some b → b ∈ S ∧ ∀ db, lookupD b defs = some db → db.base = none)
 
 /-- finding `local-sibling-ref`: some reachable declaration names, through a string, a class that is
 neither bound in the module namespace nor the declaring class itself -/
@@ -47,8 +49,8 @@ def KnownDefect.localSibling (defs : List (Name × Decl)) (S : List Name) : Bool
 theorem closed_of_reaches {defs : List (Name × Decl)} {S : List Name} (hr : Reaches defs S)
     (hd : KnownDefect.localSibling defs S = false) : Closed defs S := by
   intro k hk
-  obtain ⟨d, hl, hall⟩ := hr k hk
-  refine ⟨d, hl, hall, ?_⟩
+  obtain ⟨d, hl, hall, hbase⟩ := hr k hk
+  refine ⟨d, hl, hall, ?_, hbase⟩
   intro n hn
   have := hd
   simp only [KnownDefect.localSibling, List.any_eq_false] at this
@@ -78,8 +80,7 @@ theorem useTop_spec {cval : Cell → Ty} (leaf : Val → Option Val) (fuel : Nat
     (h : Inv cval s defs) {S : List Name} {k : Name} (hk : k ∈ S) (hS : Closed defs S) (kvs : List (Nat × Val)) :
     (useTop Cfg.fixed leaf fuel s k kvs).2 = specParse leaf (envOf defs) fuel (.data k) (.dict kvs) ∧
     Inv cval (useTop Cfg.fixed leaf fuel s k kvs).1 defs := by
-  obtain ⟨d, hl, _, hvis⟩ := hS k hk
-  obtain ⟨s1, ps1, hr, hinv1, _, _⟩ := resolveParser_ok h hl hvis
+  obtain ⟨s1, ps1, d, hr, hinv1, _, _, _⟩ := resolveParser_ok h hS hk
   simp only [useTop, hr]
   exact parse_spec leaf hS fuel s1 (.data k) (.dict kvs) hinv1 (by simpa [TyIn] using hk)
 
@@ -118,11 +119,10 @@ of `Ty`), nothing pending. -/
 theorem C17_types_after_resolution {cval : Cell → Ty} {s : State} {defs : List (Name × Decl)} (h : Inv cval s defs)
     {S : List Name} {k : Name} (hk : k ∈ S) (hr : Reaches defs S) (hd : KnownDefect.localSibling defs S = false) :
     ∃ s1 ps1 d, resolveParser Cfg.fixed s k = (s1, true) ∧ lookupD k defs = some d ∧
-      lookupP k s1.parsers = some ps1 ∧ ps1.fields = d.fields.map (fun fa => (fa.1, fa.2.direct)) ∧
+      lookupP k s1.parsers = some ps1 ∧ allFields s1.parsers ps1 = directFields defs d ∧
       Inv cval s1 defs := by
-  obtain ⟨d, hl, _, hvis⟩ := closed_of_reaches hr hd k hk
-  obtain ⟨s1, ps1, h1, h2, h3, h4⟩ := resolveParser_ok h hl hvis
-  exact ⟨s1, ps1, d, h1, hl, h3, h4, h2⟩
+  obtain ⟨s1, ps1, d, h1, h2, h3, h4, h5⟩ := resolveParser_ok h (closed_of_reaches hr hd) hk
+  exact ⟨s1, ps1, d, h1, h3, h4, h5, h2⟩
 
 /-! ### the full statement for module-level programs -/
 
@@ -177,11 +177,11 @@ theorem localSibling_false_of_allBound {defs : List (Name × Decl)} {S : List Na
     (hr : Reaches defs S) : KnownDefect.localSibling defs S = false := by
   simp only [KnownDefect.localSibling, List.any_eq_false]
   intro k hk
-  obtain ⟨d, hl, hall⟩ := hr k hk
+  obtain ⟨d, hl, hall, _⟩ := hr k hk
   simp only [hl, List.any_eq_true, not_exists, not_and]
   intro n hn
   have hnS := hall n (strNames_sub_allNames d n hn)
-  obtain ⟨d', hl', _⟩ := hr n hnS
+  obtain ⟨d', hl', _, _⟩ := hr n hnS
   have hmem := lookupD_mem hl'
   have : n ∈ boundNames defs := by
     simp only [boundNames, List.mem_map, List.mem_filter]
@@ -299,9 +299,15 @@ theorem C17_definition_order_irrelevant (cval : Cell → Ty) (leaf : Val → Opt
     (run Cfg.fixed leaf fuel State.init (ops₂ ++ [.use k kvs])).getLast? := by
   rw [C17_resolved_eq_direct_partial cval leaf fuel _ h₁, C17_resolved_eq_direct_partial cval leaf fuel _ h₂,
       specRun_append, specRun_append]
+  have hdf : directFields (defsOf ops₁) = directFields (defsOf ops₂) := by
+    funext d
+    simp only [directFields]
+    cases d.base with
+    | none => rfl
+    | some b => simp only [lookupD_perm b hperm hnd]
   have : envOf (defsOf ops₁) = envOf (defsOf ops₂) := by
     funext k'
-    simp only [envOf, lookupD_perm k' hperm hnd]
+    simp only [envOf, lookupD_perm k' hperm hnd, hdf]
   simp [specRun, this]
 
 /-! ### the property in its own words: same as the declaration written with direct references -/
@@ -379,12 +385,28 @@ theorem lookupD_dirDefs (k : Name) : ∀ defs : List (Name × Decl),
     · rfl
     · exact lookupD_dirDefs k rest
 
+theorem fields_direct_toDirect (d : Decl) :
+    d.toDirect.fields.map (fun p => (p.1, p.2.direct)) = d.fields.map (fun p => (p.1, p.2.direct)) := by
+  simp [Decl.toDirect, List.map_map, Function.comp_def, fieldAnn_direct_toDirect]
+
+theorem directFields_dirDefs (defs : List (Name × Decl)) (d : Decl) :
+    directFields (dirDefs defs) d.toDirect = directFields defs d := by
+  have hb : d.toDirect.base = d.base := rfl
+  simp only [directFields, hb, fields_direct_toDirect]
+  cases d.base with
+  | none => rfl
+  | some b =>
+    simp only [lookupD_dirDefs]
+    cases lookupD b defs with
+    | none => rfl
+    | some db => simp [fields_direct_toDirect]
+
 theorem envOf_dirDefs (defs : List (Name × Decl)) : envOf (dirDefs defs) = envOf defs := by
   funext k
   simp only [envOf, lookupD_dirDefs]
   cases lookupD k defs with
   | none => rfl
-  | some d => simp [Decl.toDirect, List.map_map, Function.comp_def, fieldAnn_direct_toDirect]
+  | some d => simp [directFields_dirDefs]
 
 theorem specRun_toDirect (leaf : Val → Option Val) (fuel : Nat) : ∀ (ops : List Op) (defs : List (Name × Decl)),
     specRun leaf fuel (dirDefs defs) (ops.map Op.toDirect) = specRun leaf fuel defs ops := by
@@ -443,8 +465,19 @@ theorem progOK_toDirect (cval : Cell → Ty) : ∀ (ops : List Op) (defs : List 
       simp only [List.map_cons, Op.toDirect, ProgOK]
       refine ⟨⟨S, hk, ?_, ?_⟩, ih defs hrest⟩
       · intro k' hk'
-        obtain ⟨d, hl, hall⟩ := hr k' hk'
-        exact ⟨d.toDirect, by simp [lookupD_dirDefs, hl], by simpa [decl_allNames_toDirect] using hall⟩
+        obtain ⟨d, hl, hall, hbase⟩ := hr k' hk'
+        refine ⟨d.toDirect, by simp [lookupD_dirDefs, hl], by simpa [decl_allNames_toDirect] using hall, ?_⟩
+        intro b hb
+        obtain ⟨hbS, hdep⟩ := hbase b hb
+        refine ⟨hbS, ?_⟩
+        intro db hdb
+        rw [lookupD_dirDefs] at hdb
+        cases hl' : lookupD b defs with
+        | none => simp [hl'] at hdb
+        | some db' =>
+          simp only [hl', Option.map_some, Option.some.injEq] at hdb
+          subst hdb
+          exact hdep db' hl'
       · simp only [KnownDefect.localSibling, List.any_eq_false]
         intro k' _
         simp only [lookupD_dirDefs]
@@ -500,8 +533,21 @@ def progUnion : List Op :=
 /-- Before fixes/C17-union-resolve.patch (keys already unique): the Optional member is never replaced
 and the local class un-evaluates the ForwardRef object after resolving it. -/
 theorem C17_legacy_union_witness :
-    (run ⟨true, false⟩ leaf0 10 State.init progUnion).map Outcome.kind = [1] ∧
+    (run ⟨true, false, true⟩ leaf0 10 State.init progUnion).map Outcome.kind = [1] ∧
     (specRun leaf0 10 [] progUnion).map Outcome.kind = [0] := by decide
+
+/-- class A (name 0): `f0: 'B'`;  class C (name 2) inherits from A;  B is declared last -/
+def progInherit : List Op :=
+  [.defn 0 { fields := [(0, .str 7 (.name 1))] },
+   .defn 2 { fields := [(2, .plain .int)], base := some 0 },
+   .defn 1 declB,
+   .use 2 [(0, .dict [(50, .int 5)])]]
+
+/-- Before fixes/C17-inherited-refs.patch: the subclass, used before its base was ever parsed, still
+holds the base's unevaluated ForwardRef. -/
+theorem C17_legacy_inherited_witness :
+    (run ⟨true, true, false⟩ leaf0 10 State.init progInherit).map Outcome.kind = [1] ∧
+    (specRun leaf0 10 [] progInherit).map Outcome.kind = [0] := by decide
 
 /-- both classes live only in a function scope; A names its sibling B through a string -/
 def progLocal : List Op :=
@@ -522,7 +568,8 @@ theorem C17_local_sibling_is_known_defect :
 
 /-- with the fixes the three programs that are not in function scope behave as written directly -/
 example : (run Cfg.fixed leaf0 10 State.init progMulti).map Outcome.kind = [0] ∧
-          (run Cfg.fixed leaf0 10 State.init progUnion).map Outcome.kind = [0] := by decide
+          (run Cfg.fixed leaf0 10 State.init progUnion).map Outcome.kind = [0] ∧
+          (run Cfg.fixed leaf0 10 State.init progInherit).map Outcome.kind = [0] := by decide
 
 /-- Non-vacuity: the hypotheses of `C17_resolved_eq_direct` (hence of the partial theorem) hold for a
 program that exercises the lazy path — forward reference, two ForwardRef objects of one name. -/
@@ -545,7 +592,7 @@ example : ProgOKModule (fun _ => .data 1) [] progMulti := by
   · intro k hk
     simp only [List.mem_cons, List.mem_nil_iff, or_false] at hk
     rcases hk with rfl | rfl
-    · exact ⟨declA2, by simp [lookupD], by simp [Decl.allNames, declA2, FieldAnn.allNames, names]⟩
-    · exact ⟨declB, by simp [lookupD], by simp [Decl.allNames, declB, FieldAnn.allNames, names]⟩
+    · exact ⟨declA2, by simp [lookupD], by simp [Decl.allNames, declA2, FieldAnn.allNames, names], by simp [declA2]⟩
+    · exact ⟨declB, by simp [lookupD], by simp [Decl.allNames, declB, FieldAnn.allNames, names], by simp [declB]⟩
 
 end Utv.C17
